@@ -201,3 +201,4 @@ import BGV
 #print axioms BGV.C19_bfs_scans
 #print axioms BGV.C19_bfs_scans_nodup
 #print axioms BGV.C19_allpred_scans
+#print axioms BGV.C19_dijkstra_scans
